@@ -132,7 +132,9 @@ impl Scenario for FailStop {
     fn execute(&self, case: &Value, ctx: &mut Ctx) -> V<()> {
         let c: FaultCase = from_value(case);
         let prep = prepare(&c.call, ctx, "C15")?;
-        let (reference, n) = perform_p(&c.call, &prep, c.face, &c.pol, Fault::None, &mut Ctx::default())?;
+        let mut ref_ctx = Ctx::default();
+        let (reference, n) = perform_p(&c.call, &prep, c.face, &c.pol, Fault::None, &mut ref_ctx)?;
+        let ref_abandoned = ref_ctx.counters.get("abandoned_pending_ops").copied().unwrap_or(0) > 0;
         if matches!(reference, Out::Failed(_)) {
             // the fault-free call itself refuses (e.g. Unknown compression): nothing to enumerate
             ctx.bump("skipped_fault_free_call_fails", 1);
@@ -141,10 +143,15 @@ impl Scenario for FailStop {
         }
         let tag = call_tag(&c.call);
         ctx.bump(&format!("scenarios_{tag}"), 1);
-        let (points, exhaustive) = match &c.only {
+        let (mut points, exhaustive) = match &c.only {
             Some(v) => (v.clone(), false),
             None => fault_points(n, u64::from(c.cap), c.sub_seed),
         };
+        if ref_abandoned && c.only.is_none() {
+            // the fault-free call left an operation pending for ever: that operation has index n
+            points.push(n);
+            ctx.bump("probe_fault_free_call_abandons_an_operation", 1);
+        }
         if exhaustive {
             ctx.bump("scenarios_swept_exhaustively", 1);
         } else {
@@ -161,12 +168,17 @@ impl Scenario for FailStop {
                 ctx.bump("fired_injected_errors", fired);
                 ctx.bump(&format!("fired_failstop_{kind:?}"), u64::from(fired > 0));
                 ctx.bump("sim_stream_ops", sub.counters.get("sim_stream_ops").copied().unwrap_or(0));
-                if k < n {
+                if k <= n {
                     ctx.sig(base ^ k.wrapping_mul(0x9E37_79B9_7F4A_7C15) ^ (*kind as u64 + 1) << 56);
                 }
                 match out {
                     Out::Failed(_) => {
                         ctx.bump("outcome_err", 1);
+                    }
+                    o if fired == 0 && sub.counters.get("abandoned_pending_ops").copied().unwrap_or(0) > 0 && k >= sub.counters.get("sim_stream_ops").copied().unwrap_or(0) && k <= n => {
+                        // the failing operation was started (it answered Pending) but never
+                        // driven to completion, so its failure could not surface
+                        vio!(format!("C15:failing-operation-abandoned:{tag}"), "{:?} {tag}: operation {k} of {n} (and all later ones) would fail with {kind:?}; the call polled it once, got Pending, never completed it and returned success ({})", c.face, brief(&o));
                     }
                     o => {
                         if o != reference {
@@ -203,9 +215,22 @@ impl Scenario for FailStop {
             if let Ok(prep) = prepare(&c.call, &mut ctx, "C15") {
                 if let Ok((_, n)) = perform_p(&c.call, &prep, c.face, &c.pol, Fault::None, &mut ctx) {
                     let pts = c.only.clone().unwrap_or_else(|| fault_points(n, u64::from(c.cap), c.sub_seed).0);
-                    for kind in &c.kinds {
-                        for k in pts.iter().rev().take(600) {
-                            out.push(to_value(&FaultCase { kinds: vec![*kind], only: Some(vec![*k]), ..c.clone() }));
+                    // find one failing (kind, k) by direct execution instead of proposing
+                    // hundreds of (large) candidate cases
+                    if let Ok((reference, _)) = perform_p(&c.call, &prep, c.face, &c.pol, Fault::None, &mut Ctx::default()) {
+                        'search: for kind in &c.kinds {
+                            for k in &pts {
+                                let mut sub = Ctx::default();
+                                let bad = match perform_p(&c.call, &prep, c.face, &c.pol, Fault::FailStop { at: *k, kind: *kind }, &mut sub) {
+                                    Ok((Out::Failed(_), _)) => false,
+                                    Ok((o, _)) => o != reference || sub.counters.get("abandoned_pending_ops").copied().unwrap_or(0) > 0,
+                                    Err(_) => true,
+                                };
+                                if bad {
+                                    out.push(to_value(&FaultCase { kinds: vec![*kind], only: Some(vec![*k]), ..c.clone() }));
+                                    break 'search;
+                                }
+                            }
                         }
                     }
                 }
